@@ -41,6 +41,11 @@ pub fn quote_ident(r: &mut Rng, name: &str, force: bool) -> String {
     }
 }
 
+fn pick_ident(r: &mut Rng, pool: &[&str]) -> String {
+    let name = *r.pick(pool);
+    quote_ident(r, name, false)
+}
+
 pub fn int_literal(r: &mut Rng) -> String {
     match r.below(14) {
         0 => "0".into(),
@@ -106,7 +111,7 @@ fn int_expr(r: &mut Rng, depth: u32) -> String {
             0 => int_literal(r),
             1 => format!("-{}", int_literal(r)),
             2 => num_literal(r),
-            _ => quote_ident(r, *r.pick(&INT_COLS), false),
+            _ => pick_ident(r, &INT_COLS),
         };
     }
     match r.below(9) {
@@ -114,7 +119,7 @@ fn int_expr(r: &mut Rng, depth: u32) -> String {
         1 => format!("-{}", int_expr(r, depth - 1)),
         2 => format!("{}({})", kw(r, "LENGTH"), str_expr(r, depth - 1)),
         3 => format!("{}({})", kw(r, "TO_YEAR"), int_expr(r, depth - 1)),
-        4 => format!("{}({})", kw(r, "FLOOR"), quote_ident(r, *r.pick(&FLOAT_COLS), false)),
+        4 => format!("{}({})", kw(r, "FLOOR"), pick_ident(r, &FLOAT_COLS)),
         _ => {
             let op = *r.pick(&["+", "-", "*", "/", "%"]);
             format!("{} {} {}", int_expr(r, depth - 1), op, int_expr(r, depth - 1))
@@ -126,7 +131,7 @@ fn str_expr(r: &mut Rng, _depth: u32) -> String {
     if r.chance(1, 4) {
         str_literal(r)
     } else {
-        quote_ident(r, *r.pick(&STR_COLS), false)
+        pick_ident(r, &STR_COLS)
     }
 }
 
@@ -158,7 +163,7 @@ fn aggregate(r: &mut Rng) -> String {
     let arg = match r.below(5) {
         0 => "1".to_string(),
         1 => int_expr(r, 1),
-        _ => quote_ident(r, *r.pick(&INT_COLS), false),
+        _ => pick_ident(r, &INT_COLS),
     };
     let base = format!("{}({})", kw(r, f), arg);
     match r.below(8) {
